@@ -45,8 +45,8 @@ TRUSTED = [
     "C07 Process.cpu_percent: /proc/<pid>/stat parsing itself is C06's subject; here utime/stime reach the model as tick counts",
 ]
 MANIFEST = {
-    "level_text": "Machine-checked Lean 4 proofs over an exact-rational model of the Linux /proc/stat parser and of the cpu_percent / cpu_times_percent / Process.cpu_percent front ends: parse∘render round trip for every kernel state (C07_times_exact, C07_per_cpu_times_exact, kernel order C07_fields_kernel_order), cpu_percent = round1(100·busy/total) for all rational samples and all four field sets (C07_percent_formula), range [0,100] (C07_percent_range), decreasing counters contribute zero (C07_decreasing_field_contributes_zero), guest not double counted (C07_guest_not_double_counted, C07_guest_accounting), cpu_times_percent shares within [0,100] (C07_tp_range) adding up to exactly 100 before rounding and within 0.05 per field after (C07_tp_sum_exact, C07_tp_sum_rounded) for EVERY positive total; the full statement C07_tp_sum_Full is proved for the guard `100/all_delta if all_delta > 0` (C07_tp_sum_fixed), proved for totals ≥ 1 s for the current guard (C07_tp_sum_partial) and REFUTED for the current `max(1, all_delta)` guard with a 0.1 s witness (C07_tp_sum_counterexample; known finding C07-tp-subsecond); every call is measured against the same thread's previous sample for every history (C07_own_previous_sample, by induction), thread independence for serial histories and for every interleaving of dictionary accesses (C07_thread_independence, C07_thread_independence_interleaved), Process.cpu_percent formula/first call/negative interval/object independence (C07_proc_percent, …); the full statement for ANY sequence of CPU counts (C07_proc_percent_Full) is proved for the repaired shape `delta_time = (st2 - st1) * num_cpus` over raw time stamps (C07_proc_percent_fixed) and REFUTED for the code as found, which subtracts `timer()*num_cpus` products of two different calls (C07_proc_percent_counterexample: 2 -> 1 CPUs gives a negative percentage; known finding C07-cpu-count-change, repair fixes/C07-cpu-count-change.diff); 'since module import': from the state the module-level code leaves, for every history (C07_since_import, C07_first_call_after_import); per-CPU lists of different lengths (C07_percpu_any_lengths, C07_percpu_cpu_count_change: one value per CPU present in both samples, position by position); threads versus identifiers (C07_own_thread_partial under distinct identifiers, C07_ident_reuse_inherits, C07_ident_reuse_counterexample); the kernel token grammar (C07_token_grammar, C07_grammar_exact, C07_grammar_tokens_parse). The model is tied to the code by 24 translator facts feeding the proof obligation cfg_good and by a differential run of the real functions on generated kernel states, call histories from real threads (also short-lived ones whose identifiers are handed out again), fresh imports in a child interpreter, Process histories with changing CPU counts, and the live /proc/stat.",
-    "level_note": "Partial: IEEE doubles are modelled by exact rationals (tolerance stated); the sum-to-100 clause is false of the current code for 0 < total < 1 s (known finding, no repair that keeps test_cpu_steal_decrease green); Process.cpu_percent with a CPU count that changes between two calls is false of the current code (known finding C07-cpu-count-change, small repair proposed and proved); the thread-level statement needs distinct thread identifiers (false otherwise, by design of the code; what is returned is proved); tokens float() accepts but no kernel prints are outside the claim; thread steps are dictionary accesses (GIL atomicity assumed).",
+    "level_text": "Machine-checked Lean 4 proofs over an exact-rational model of the Linux /proc/stat parser and of the cpu_percent / cpu_times_percent / Process.cpu_percent front ends: parse∘render round trip for every kernel state (C07_times_exact, C07_per_cpu_times_exact, kernel order C07_fields_kernel_order), cpu_percent = round1(100·busy/total) for all rational samples and all four field sets (C07_percent_formula), range [0,100] (C07_percent_range), decreasing counters contribute zero (C07_decreasing_field_contributes_zero), guest not double counted (C07_guest_not_double_counted, C07_guest_accounting), cpu_times_percent shares within [0,100] (C07_tp_range) adding up to exactly 100 before rounding and within 0.05 per field after (C07_tp_sum_exact, C07_tp_sum_rounded) for EVERY positive total; the full statement C07_tp_sum_Full is proved for the guard `100/all_delta if all_delta > 0` (C07_tp_sum_fixed), proved for totals ≥ 1 s for the current guard (C07_tp_sum_partial) and REFUTED for the current `max(1, all_delta)` guard with a 0.1 s witness (C07_tp_sum_counterexample; known finding C07-tp-subsecond); every call is measured against the same thread's previous sample for every history (C07_own_previous_sample, by induction), thread independence for serial histories and for every interleaving of dictionary accesses (C07_thread_independence, C07_thread_independence_interleaved), Process.cpu_percent formula/first call/negative interval/object independence (C07_proc_percent, …); the full statement for ANY sequence of CPU counts (C07_proc_percent_Full) is proved at full strength for the code as it is now (C07_proc_percent_code, through the obligation cfg_proc_scale_delta on the shape `delta_time = (st2 - st1) * num_cpus` over raw time stamps, C07_proc_percent_fixed) and REFUTED for the code as found, which subtracted `timer()*num_cpus` products of two different calls (C07_proc_percent_counterexample: 2 -> 1 CPUs gives a negative percentage; C07-cpu-count-change, fixed in /repo by 73df480); 'since module import': from the state the module-level code leaves, for every history (C07_since_import, C07_first_call_after_import); per-CPU lists of different lengths (C07_percpu_any_lengths, C07_percpu_cpu_count_change: one value per CPU present in both samples, position by position); threads versus identifiers (C07_own_thread_partial under distinct identifiers, C07_ident_reuse_inherits, C07_ident_reuse_counterexample); the kernel token grammar (C07_token_grammar, C07_grammar_exact, C07_grammar_tokens_parse). The model is tied to the code by 21 translator facts feeding the proof obligations cfg_good / cfg_proc_scale_delta and by a differential run of the real functions on generated kernel states, call histories from real threads (also short-lived ones whose identifiers are handed out again), fresh imports in a child interpreter, Process histories with changing CPU counts, and the live /proc/stat.",
+    "level_note": "Partial: IEEE doubles are modelled by exact rationals (tolerance stated); the sum-to-100 clause is false of the current code for 0 < total < 1 s (C07-tp-subsecond, the one known finding left; no repair that keeps test_cpu_steal_decrease green); Process.cpu_percent with a CPU count that changes between two calls was false of the code as found and is fixed by 73df480 (proved at full strength for the current code: C07_proc_percent_code); the thread-level statement needs distinct thread identifiers (false otherwise, by design of the code; what is returned is proved); tokens float() accepts but no kernel prints are outside the claim; thread steps are dictionary accesses (GIL atomicity assumed).",
     "technique": "Lean 4 proofs (field arithmetic over ℚ, round-trip, induction over histories and interleavings) + translator-fed proof obligation + differential correspondence through a fake /proc/stat with real threads",
     "design_ref": "DESIGN.md §5 C07",
 }
